@@ -77,6 +77,7 @@ pub struct WorldGen<'a, 'c> {
     pub fault_p: u32,
     /// only correct outcomes, never null (C33-style serving is done elsewhere; this is for C27)
     pub max_len: usize,
+    pub max_positions: usize,
 }
 
 impl<'a, 'c> WorldGen<'a, 'c> {
@@ -88,7 +89,7 @@ impl<'a, 'c> WorldGen<'a, 'c> {
             2 => 28,
             _ => 70,
         };
-        WorldGen { c, schema, world: World::default(), labels: BTreeSet::new(), fault_p, max_len: 3 }
+        WorldGen { c, schema, world: World::default(), labels: BTreeSet::new(), fault_p, max_len: 3, max_positions: 80 }
     }
 
     fn fault(&mut self) -> bool {
@@ -290,10 +291,19 @@ impl<'a, 'c> WorldGen<'a, 'c> {
     pub fn outcome(&mut self, ty: &Type, depth: usize) -> Outcome {
         let non_null = ty.is_non_null();
         let t = ty.nullable();
+        // size cap: beyond `max_positions` resolved positions nothing opens new positions
+        if self.world.table.len() >= self.max_positions && !matches!(t, Type::Named(n) if self.schema.is_leaf(n)) {
+            self.labels.insert("w:capped");
+            return match t {
+                Type::List(_) => Outcome::List(vec![]),
+                _ => Outcome::Leaf(Json::Null),
+            };
+        }
         if self.fault() {
             return self.faulty(t, non_null);
         }
-        if !non_null && self.c.bool(28) {
+        let p_null = if matches!(t, Type::Named(n) if self.schema.is_composite(n)) { 14 } else { 28 };
+        if !non_null && self.c.bool(p_null) {
             self.labels.insert("w:null");
             return Outcome::Leaf(Json::Null);
         }
